@@ -177,6 +177,12 @@ def impl_kernel(case):
         fn = gi.get_slicing_selection if k == "slicing" else gi.get_array_selection
         d, i, p = fn(data, ai, indptr, starts, ends, col)
         return {"pos": [int(v) for v in d], "cols": [int(v) for v in i], "indptr": [int(v) for v in p]}
+    if k == "flat":
+        from numba.typed import List
+        from sparse.numba_backend._compressed.convert import convert_to_flat
+        inds = List([np.array(l, dtype=np.intp) for l in case["inds"]])
+        out = convert_to_flat(inds, tuple(case["shape"]), np.intp)
+        return {"out": [int(v) for v in out]}
     raise ValueError(k)
 
 
@@ -576,6 +582,11 @@ def kernel_cases(tier, seed):
         cases.append({"k": "slicing", "indices": indices, "starts": starts, "ends": ends, "col": col_sorted})
         col_any = [rng.randrange(ncols) for _ in range(rng.randint(0, 5))]
         cases.append({"k": "array", "indices": indices, "starts": starts, "ends": ends, "col": rng.choice([col_any, col_sorted])})
+    for _ in range(n // 2):
+        nd = rng.randint(1, 3)
+        shape = [rng.choice([1, 2, 3, 5]) for _ in range(nd)]
+        inds = [[rng.randrange(d) for _ in range(rng.choice([0, 1, 1, 2, 3]))] for d in shape]
+        cases.append({"k": "flat", "inds": inds, "shape": shape})
     return cases
 
 
@@ -595,13 +606,15 @@ def kernel_lit(c, r):
         return f"KFilter {vlist(c['starts'])} {vlist(c['stops'])} {pl(c['pts'])} {vlist(c['inds'], triple_lit)} {vlist(r['m'])}"
     if k == "join":
         return f"KJoin {vlist(c['starts'])} {vlist(c['stops'])} {vlist(r['starts'])} {vlist(r['stops'])}"
+    if k == "flat":
+        return f"KFlat {vlist(c['inds'], vlist)} {vlist(c['shape'])} {vlist(r['out'])}"
     tag = "KSlicing" if k == "slicing" else "KArray"
     return (f"{tag} {vlist(c['indices'])} {vlist(c['starts'])} {vlist(c['ends'])} {vlist(c['col'])} "
             f"{vlist(r['pos'])} {vlist(r['cols'])} {vlist(r['indptr'])}")
 
 
 # ------------------------------------------------------------------ evaluation inside Coq
-IMPORTS = "From Verif Require Import Py PySlice Slicing Shape COO GCXS NpIndex CooIndex GcxsIndex SArr C02IndexJudge."
+IMPORTS = "From Verif Require Import Py PySlice Slicing Shape COO GCXS NpIndex CooIndex GcxsIndex GcxsGetitem DokGetitem SArr C02IndexJudge."
 
 
 def judge_and_tags(build, name, case_type, judge_fn, tag_fn, lits, chunk=400):
